@@ -235,4 +235,22 @@ def prodBounds : List Loop → Nat
 /-- innermost relevant stride equals the element width (the data of one step is contiguous inside a bank) -/
 def innerStride (it : List Loop) : Option Int := it.head?.map (·.2)
 
+/-! ## The iteration box (specification side) -/
+
+/-- all index vectors of a box in schedule order (row-major: first dimension outermost, last index fastest) -/
+def points : List Nat → List (List Nat)
+  | [] => [[]]
+  | b :: bs => (List.range b).flatMap fun i => (points bs).map (i :: ·)
+
+/-- `Σ strides_i · x_i` for a point of the box -/
+def dotN : List Int → List Nat → Int
+  | s :: ss, x :: xs => s * (x : Int) + dotN ss xs
+  | _, _ => 0
+
+/-- `access_iter` when every dimension is relevant -/
+def boxLoops (bounds : List Nat) (strides : List Int) : List Loop := (bounds.zip strides).reverse
+
+/-- the `el` bytes of the element at byte address `a` -/
+def elemBytes (el : Nat) (a : Int) : List Int := (List.range el).map fun (k : Nat) => a + (k : Int)
+
 end SnaxVerif.Stream
